@@ -592,7 +592,6 @@ func identitiesDistinct(g gInfo) bool {
 	return true
 }
 
-
 // clip quotes a string for a report, eliding the middle of a long one.
 func clip(s string) string {
 	if len(s) <= 160 {
@@ -1217,6 +1216,9 @@ func Run(r *common.Run) error {
 			c.info(g, "replay", 8)
 			c.entryPoints(g, []byte("ab"))
 			c.concurrentOn(g, 400)
+			if len(g.forms) > 0 {
+				c.historyOn(g)
+			}
 		}
 		return nil
 	}
@@ -1227,6 +1229,8 @@ func Run(r *common.Run) error {
 	}
 	c.concurrent()
 	c.decoded()
+	c.octets()
+	c.history()
 
 	// corpus: the two worked examples of XEP-0115 (§5.2, §5.3) with their published
 	// verification strings, then the minimal witnesses of past failures
